@@ -1,6 +1,7 @@
 package main
 
 import (
+	"go/token"
 	"fmt"
 	"go/types"
 	"strings"
@@ -231,7 +232,16 @@ func (f *Frame) execCall(cur *blockCur, in ssa.Instruction, cc *ssa.CallCommon, 
 		// looked into here (neither unfolded nor summarised): result unconstrained, every heap forgotten
 		c.stats.callsHavoc++
 		c.note("call to %s: package declared opaque for this proof, result unconstrained, all heaps havocked", shortFn(name))
+		effBefore := ""
+		if _, used := c.heapKeys["G_effects"]; used && c.cannotReachRootPkg(callee) {
+			// code of a package that does not (transitively) import the package under verification cannot call its
+			// Client / Hook methods: the counted effects are unchanged
+			effBefore = cur.st.get(HeapKey{Name: "G_effects", Sort: "Int"})
+		}
 		f.havocAll(cur)
+		if effBefore != "" {
+			cur.assume(fmt.Sprintf("(= %s %s)", cur.st.get(HeapKey{Name: "G_effects", Sort: "Int"}), effBefore))
+		}
 		r := f.freshVal(rt, hint)
 		cur.assume(f.typeInv(r))
 		cur.assume(c.refBound(r, cur.st.watermark()))
@@ -362,6 +372,18 @@ func escapes(a ssa.Value) bool {
 					}
 				}
 				return true
+			case *ssa.MakeClosure:
+				// captured by a closure: harmless when the closure (and closures nested in it) only ever loads the
+				// captured variable (a read-only capture: nobody but this function assigns the variable)
+				cf, _ := x.Fn.(*ssa.Function)
+				if cf == nil {
+					return true
+				}
+				for i, b := range x.Bindings {
+					if b == v && (i >= len(cf.FreeVars) || !readOnlyCapture(cf.FreeVars[i], 0)) {
+						return true
+					}
+				}
 			default:
 				return true
 			}
@@ -369,6 +391,36 @@ func escapes(a ssa.Value) bool {
 		return false
 	}
 	return walk(a)
+}
+
+// readOnlyCapture: the free variable (a pointer to the captured variable) is only loaded from, or captured again by
+// nested closures that only load it.
+func readOnlyCapture(fv *ssa.FreeVar, depth int) bool {
+	if depth > 4 || fv.Referrers() == nil {
+		return false
+	}
+	for _, r := range *fv.Referrers() {
+		switch x := r.(type) {
+		case *ssa.DebugRef:
+		case *ssa.UnOp:
+			if x.Op != token.MUL {
+				return false
+			}
+		case *ssa.MakeClosure:
+			cf, _ := x.Fn.(*ssa.Function)
+			if cf == nil {
+				return false
+			}
+			for i, b := range x.Bindings {
+				if b == ssa.Value(fv) && (i >= len(cf.FreeVars) || !readOnlyCapture(cf.FreeVars[i], depth+1)) {
+					return false
+				}
+			}
+		default:
+			return false
+		}
+	}
+	return true
 }
 
 // pureUF models a deterministic side-effect-free function as an uninterpreted function of its arguments.
@@ -789,4 +841,48 @@ func (c *FuncCtx) opaqueCallee(callee *ssa.Function) bool {
 		}
 	}
 	return false
+}
+
+// cannotReachRootPkg: the callee's package does not import, directly or transitively, the package of the function
+// under verification (so it cannot call the methods whose calls `effects()` counts there).
+func (c *FuncCtx) cannotReachRootPkg(callee *ssa.Function) bool {
+	if c.rootFn == nil || callee == nil {
+		return false
+	}
+	rp := c.rootFn.Pkg
+	for p := c.rootFn.Parent(); rp == nil && p != nil; p = p.Parent() {
+		rp = p.Pkg
+	}
+	pk := callee.Pkg
+	for p := callee.Parent(); pk == nil && p != nil; p = p.Parent() {
+		pk = p.Pkg
+	}
+	if pk == nil && callee.Origin() != nil {
+		pk = callee.Origin().Pkg
+	}
+	if rp == nil || pk == nil || pk == rp {
+		return false
+	}
+	seen := map[*types.Package]bool{}
+	var reach func(p *types.Package) bool
+	reach = func(p *types.Package) bool {
+		if p == rp.Pkg {
+			return true
+		}
+		if seen[p] {
+			return false
+		}
+		seen[p] = true
+		for _, im := range p.Imports() {
+			if reach(im) {
+				return true
+			}
+		}
+		return false
+	}
+	if reach(pk.Pkg) {
+		return false
+	}
+	c.assume("package " + pk.Pkg.Path() + " does not import " + rp.Pkg.Path() + " (checked): its code cannot perform the calls that effects() counts")
+	return true
 }
